@@ -146,6 +146,9 @@ def option_sets(rng, n, L, D, count):
     for tb in range(n):
         if not L <= tb < n - D:
             out.append(dict(entry='_evaluate', t=rng.choice([tb, tb - n]), min_iter=0, max_iter=1, tol=1e-6, failures='ignore', errors='raise', offset=0, fortran_only=True))
+    # positions outside the span altogether, at either end and far out (where a wrapped index would land on a feasible period)
+    for tt in (-n - 1, -2 * n, -2 * n - feas[0] - 1 + n, -3 * n + feas[-1], n, n + feas[0], 2 * n + 1):
+        out.append(dict(entry=rng.choice(['_evaluate', '_evaluate', 'solve_t']), t=tt, min_iter=0, max_iter=2, tol=1e-6, failures='ignore', errors='raise', offset=0))
     # infeasible explicit periods and min_iter > max_iter
     out.append(dict(entry='solve_t', t=rng.choice([0, -n] if L else [n - 1, -1]) if (L or D) else feas[0], min_iter=0, max_iter=5, tol=1e-6, failures='ignore', errors='raise', offset=0))
     out.append(dict(entry='solve_t', t=feas[0], min_iter=4, max_iter=2, tol=1e-6, failures='ignore', errors='raise', offset=0))
